@@ -138,6 +138,17 @@ def run(ctx):
         jobs.append({'script': sc})
         plan.append(('land', k, srv_sites[k - 1], sc))
     ctx.extra['server_landing_points'] = len(srv_sites)
+    # the stop arriving while the *parent* is at each line of its side of the start-up (it is held there, the server goes away)
+    from . import c20
+    ok_sites, n_ok, _ = c20.parent_paths()
+    if not ok_sites:
+        ctx.selftest_fail('no points recorded in the parent frontend thread')
+    for how in ('sigterm', 'terminate'):
+        for k in c20.thin_points(ok_sites, n_ok, ctx.quick):
+            sc = c20.server_stopped_while_parent_held('R', k, how=how)
+            jobs.append({'script': sc})
+            plan.append(('parent-held', k, ok_sites[k - 1], sc, how))
+    ctx.extra['parent_handshake_points'] = n_ok
     res = land.run_cases(jobs, case_timeout=180, nproc=10)
     harness = 0
     for p, job, obs in zip(plan, jobs, res):
@@ -154,6 +165,26 @@ def run(ctx):
                     continue
                 ctx.violation('SEQ/stop-%s/%s' % (how, what), {'population': list(pop), 'how': how}, detail,
                               'children reaped, parents find out without blocking', engine='SEQ')
+        elif p[0] == 'parent-held':
+            _, k, site, sc, how = p
+            ctx.distinct(('parent-held', k, how))
+            if obs.get('driver_hang') or obs.get('driver_error'):
+                harness += 1
+                continue
+            t = {}
+            for op, st in zip(sc, obs['steps']):
+                if op.get('tag'):
+                    t[op['tag']] = st
+            if t.get('reached', {}).get('ret') is not True:
+                ctx.outcome('parent-held:not-reached')
+                continue
+            bad = None
+            if t.get('ctor', {}).get('hang'):
+                bad = ('parent-blocks-in-constructor', t.get('ctor'))
+            ctx.outcome('parent-held:%s:%s' % (how, bad[0] if bad else ('raises' if 'exc' in t.get('ctor', {}) else 'returns')))
+            if bad:
+                ctx.violation('LAND/stop-%s-while-parent@%s/%s' % (how, land.site_sig(site, os.environ.get('PWV_REPO', '/repo')), bad[0]),
+                              {'k': k, 'site': site, 'how': how}, bad[1], 'the parent finds out without blocking', engine='LAND')
         else:
             _, k, site, sc = p
             ctx.distinct(('land', k))
